@@ -88,6 +88,7 @@ class G:
             mode = "entry"
         elif r < 0.2:
             mode = "cross"
+        self.tail = []
         actors = getattr(self, "k_" + kind)(cls, mode)
         actors = [a for a in actors if a["calls"]]
         C = {"t": "cls", "name": cls}
@@ -129,7 +130,7 @@ class G:
                 entry = {"t": "meth", "x": C, "m": "_builder"}
             else:
                 mode = "main"
-        return {"cls": cls, "kind": kind, "mode": mode, "entry": entry, "actors": actors}
+        return {"cls": cls, "kind": kind, "mode": mode, "entry": entry, "actors": actors, "tail": self.tail}
 
     def join_call(self, base_tbl, jt, how=None):
         item = dict(jt)
@@ -267,6 +268,16 @@ class G:
                 if cls == "MySQLQuery":
                     c.append({"m": "on_conflict", "a": []})
                     c.append({"m": "do_update", "a": [self.ch(COLS), self.val()]} if self.p(0.6) else {"m": "do_nothing", "a": []})
+                elif mode == "main" and self.p(0.4):
+                    # on_conflict() and do_update() are different clauses and commute; a where() delivered AFTER both
+                    # (program["tail"]) is routed to DO UPDATE ... WHERE whatever their relative order was
+                    A.append({"group": "conflict_target", "calls": [{"m": "on_conflict", "a": [self.ch(COLS)]}
+                                                                      for _ in range(self.rng.randint(1, 2))]})
+                    A.append({"group": "conflict_action", "calls": [{"m": "do_update", "a": [self.ch(COLS), self.ch([1, "v"])]}
+                                                                      for _ in range(self.rng.randint(1, 2))]})
+                    if self.p(0.7):
+                        self.tail = [{"m": "where", "a": [self.crit(TA)]}]
+                    c = None
                 else:
                     c.append({"m": "on_conflict", "a": [self.ch(COLS)]})
                     if self.p(0.3):
@@ -279,8 +290,9 @@ class G:
                             c.append({"m": "where", "a": [self.crit(TA)]})
                     else:
                         c.append({"m": "do_nothing", "a": []})
-                A.append({"group": "conflict", "calls": c})
-                if mode == "cross" and self.p(0.7):
+                if c is not None:
+                    A.append({"group": "conflict", "calls": c})
+                if c is not None and mode == "cross" and self.p(0.7):
                     # where() as an actor of its own next to the conflict FIFO (which then holds no where itself)
                     c[:] = [x for x in c if x["m"] != "where"]
                     A.append({"group": "xwhere", "calls": [{"m": "where", "a": [self.crit(TA)]}]})
@@ -409,6 +421,11 @@ def run_merge(prog, merge, keep_prefix=False):
             return None, (step, type(e).__name__, call["m"]), prefixes
         if keep_prefix:
             prefixes.append((call, head))
+    for call in prog.get("tail", ()):  # calls delivered after every scheduled call, in every merge
+        try:
+            head = apply_call(env, head, call)
+        except Exception as e:  # noqa: BLE001
+            return None, (len(merge), type(e).__name__, call["m"]), prefixes
     return head, None, prefixes
 
 
@@ -857,6 +874,9 @@ TIERS = {
 }
 
 
+KNOWN = runner.known_signatures(PROP)
+
+
 def batch(task):
     lib.get()
     agg = new_agg()
@@ -867,8 +887,8 @@ def batch(task):
             agg["harness"].append({"run": run, "why": repr(e)[:200]})
             continue
         fold(agg, res, prog)
-        runner.note_violations(len(res["violations"]))
-        if len(agg["violations"]) >= 40 or runner.stop_requested():
+        runner.note_violations(sum(1 for v in res["violations"] if v["signature"] not in KNOWN))
+        if sum(1 for v in agg["violations"] if v[0] not in KNOWN) >= 40 or runner.stop_requested():
             break
     return agg
 
